@@ -740,7 +740,11 @@ func (s *summarizer) allocStores(a *ssa.Alloc) (init, late []allocStore, escapes
 			default:
 				// the address flows on as a value (interface conversion, phi, slice of an array, return, ...):
 				// whoever receives it may write through it
-				if _, isRet := r.(*ssa.Return); !isRet {
+				switch r.(type) {
+				case *ssa.Return:
+				case *ssa.Slice:
+					// a[:] of a local array (the backing array of variadic arguments): a view, handled where it is used
+				default:
 					escapes = true
 				}
 				uses = append(uses, use{r, nil})
@@ -1417,7 +1421,8 @@ func (s *summarizer) blockEffects(b *ssa.BasicBlock, region int, guard *Term, em
 			}
 			if s.isEffectCall(x) {
 				emit(Effect{"call", region, guard, []*Term{s.term(x)}, x.Pos()})
-			} else if s.isCheckCall(x) {
+			} else if region == -1 && s.isCheckCall(x) {
+				// outside loops only: inside a loop the call is part of the per-iteration terms
 				emit(Effect{"check", region, guard, []*Term{s.term(x)}, x.Pos()})
 			}
 		case *ssa.Go:
